@@ -144,6 +144,16 @@ func (g *Gen) symbolObligations(id string) {
 	for op := range goLevels {
 		ops = append(ops, op)
 	}
+	// operators of Go that the language may or may not have: if the table has them, their level
+	// must be Go's (T1); nothing is required if it does not
+	optional := map[string]bool{}
+	for op, lvl := range map[string]int{"&^": 5} {
+		if _, ok := tab[op]; ok {
+			goLevels[op] = lvl
+			optional[op] = true
+			ops = append(ops, op)
+		}
+	}
 	sort.Strings(ops)
 	add := func(name, goal, text string) {
 		g.Obls = append(g.Obls, &Obligation{Name: name, Props: []string{"C05"}, Goal: goal, Text: text, Unit: "symbols"})
@@ -175,6 +185,9 @@ func (g *Gen) symbolObligations(id string) {
 		o := &Obligation{Name: "symbols/T1[" + o1 + "]", Props: []string{"C05"}, Hyps: hyps, Goal: smtAnd(parts...), Unit: "symbols",
 			Text: fmt.Sprintf("operator %s (Go level %d, Lbp %d): for every binary operator o, level(%s) < level(o) <=> Lbp(%s) < Lbp(o)", o1, goLevels[o1], tab[o1].Lbp, o1, o1)}
 		g.Obls = append(g.Obls, o)
+		if optional[o1] {
+			continue
+		}
 		// T2: parsed by the generic infix handler
 		add("symbols/T2["+o1+"]", ifs(tab[o1].Led == "ledInfix", "true", "false"), "binary operator "+o1+" is handled by ledInfix (left-associative infix), found "+tab[o1].Led)
 	}
